@@ -208,6 +208,18 @@ class NPProxy:
     def clip(self, x, lo, hi):
         if isinstance(x, Term):
             lo_t, hi_t = Term.lift(lo), Term.lift(hi)
+            c = Ctx.cur
+            if c is not None and not c.concolic and x.const is None:
+                # lemma: already inside [lo, hi] on this path (e.g. the dot product of two unit quaternions written as
+                # the cosine of an atom) -> clip is the identity and the value keeps its polynomial form
+                sv = z3.Solver()
+                sv.set('timeout', 500)
+                sv.add(*c.assumptions)
+                sv.add(*c.path)
+                sv.add(*c.div_guards)
+                sv.add(z3.Or(x.e < lo_t.e, x.e > hi_t.e))
+                if str(sv.check()) == 'unsat':
+                    return x
             e = z3.If(x.e < lo_t.e, lo_t.e, z3.If(x.e > hi_t.e, hi_t.e, x.e))
             v = None if x.val is None else min(max(x.val, float(lo)), float(hi))
             return Term(e, None, v)
